@@ -69,7 +69,20 @@ type vc16Rec struct {
 	Meta vc16Meta // N and Time are filled in at execution
 }
 
+// Context modes of one Refresh call.
+const (
+	vc16CtxLive      = iota
+	vc16CtxCancelled // already cancelled when Refresh is called
+	vc16CtxExpired   // already past its deadline when Refresh is called
+	vc16CtxCancelMid // cancelled mid-stream (at the position of the mid-stream records)
+)
+
+// vc16Attempt is the script of one Refresh.  As with a real gRPC client, a
+// stream cannot be opened on a context that is done, and Send/CloseAndRecv
+// fail once the stream's context is done.
 type vc16Attempt struct {
+	Ctx     int
+	cancel  context.CancelFunc
 	Kind    int
 	SendAt  int // permille of the number of messages at which Send fails
 	ErrKind int // which error value
@@ -142,7 +155,7 @@ type vc16Client struct {
 }
 
 func (c *vc16Client) SaveDevicesBillingStat(
-	_ context.Context,
+	ctx context.Context,
 	_ ...grpc.CallOption,
 ) (s grpc.ClientStreamingClient[DeviceBillingStat, emptypb.Empty], err error) {
 	w := c.w
@@ -154,14 +167,25 @@ func (c *vc16Client) SaveDevicesBillingStat(
 	}
 
 	w.streams++
-	if a.Kind == vc16OpenErr {
-		w.log = append(w.log, "stream open -> error")
-		w.classes["open-error"] = true
+	ctxErr := ctx.Err()
+	if a.Kind == vc16OpenErr || ctxErr != nil {
+		if ctxErr != nil {
+			w.log = append(w.log, fmt.Sprintf("stream open -> error (%v)", ctxErr))
+			w.classes["open-error-done-context"] = true
+		} else {
+			w.log = append(w.log, "stream open -> error")
+			w.classes["open-error"] = true
+		}
+
 		// Which devices the failed upload held is not observable here.
 		for d := range w.recorded {
 			if w.recorded[d] > w.delivered[d] {
 				w.failedSeen[d] = true
 			}
+		}
+
+		if ctxErr != nil {
+			return nil, status.FromContextError(ctxErr).Err()
 		}
 
 		return nil, vc16Err(a.ErrKind)
@@ -183,12 +207,13 @@ func (c *vc16Client) SaveDevicesBillingStat(
 		}
 	}
 
-	return &vc16Stream{w: w, a: a, lastAtOpen: lastAtOpen, failAt: a.SendAt * expect / 1000, midAt: a.MidAt * (expect + 1) / 1000}, nil
+	return &vc16Stream{ctx: ctx, w: w, a: a, lastAtOpen: lastAtOpen, failAt: a.SendAt * expect / 1000, midAt: a.MidAt * (expect + 1) / 1000}, nil
 }
 
 type vc16Stream struct {
 	grpc.ClientStream
 
+	ctx        context.Context
 	w          *vc16World
 	a          *vc16Attempt
 	lastAtOpen map[agd.DeviceID]vc16Meta
@@ -212,6 +237,26 @@ func (s *vc16Stream) mid() {
 		s.midDevs[vc16Devs[s.a.Mid[i].Dev]] = true
 		s.w.record(&s.a.Mid[i])
 	}
+
+	if s.a.Ctx == vc16CtxCancelMid && s.a.cancel != nil {
+		s.w.log = append(s.w.log, "context cancelled")
+		s.a.cancel()
+	}
+}
+
+// ctxFailed fails the stream if its context is done.
+func (s *vc16Stream) ctxFailed(where string) (err error) {
+	cerr := s.ctx.Err()
+	if cerr == nil {
+		return nil
+	}
+
+	s.w.log = append(s.w.log, fmt.Sprintf("%s -> error (%v)", where, cerr))
+	s.w.classes["stream-cancelled-in-flight"] = true
+	s.markFailed()
+	s.closed = true
+
+	return status.FromContextError(cerr).Err()
 }
 
 func (s *vc16Stream) markFailed() {
@@ -243,6 +288,10 @@ func (s *vc16Stream) Send(m *DeviceBillingStat) (err error) {
 		s.mid()
 	}
 
+	if err = s.ctxFailed(fmt.Sprintf("Send #%d", len(s.msgs))); err != nil {
+		return err
+	}
+
 	if s.a.Kind == vc16SendErr && len(s.msgs) == s.failAt {
 		w.log = append(w.log, fmt.Sprintf("Send #%d -> error", len(s.msgs)))
 		if s.failAt == 0 {
@@ -271,6 +320,10 @@ func (s *vc16Stream) CloseAndRecv() (e *emptypb.Empty, err error) {
 	}
 
 	s.mid()
+	if err = s.ctxFailed("CloseAndRecv"); err != nil {
+		return nil, err
+	}
+
 	s.closed = true
 
 	if s.a.Kind == vc16CloseErr || (s.a.Kind == vc16SendErr && len(s.msgs) <= s.failAt) {
@@ -327,11 +380,39 @@ func (s *vc16Stream) CloseAndRecv() (e *emptypb.Empty, err error) {
 }
 
 func (w *vc16World) refresh(a *vc16Attempt) {
+	ctx := w.ctx
+	txt := ""
+	switch a.Ctx {
+	case vc16CtxCancelled:
+		var cancel context.CancelFunc
+		ctx, cancel = context.WithCancel(ctx)
+		cancel()
+		txt = " [ctx already cancelled]"
+	case vc16CtxExpired:
+		var cancel context.CancelFunc
+		ctx, cancel = context.WithDeadline(ctx, vc16Base)
+		defer cancel()
+		txt = " [ctx already past its deadline]"
+	case vc16CtxCancelMid:
+		ctx, a.cancel = context.WithCancel(ctx)
+		defer a.cancel()
+		txt = " [ctx to be cancelled mid-stream]"
+	}
+
+	if a.Ctx == vc16CtxCancelled || a.Ctx == vc16CtxExpired {
+		// Undelivered queries are what a conserving recorder holds now.
+		for d := range w.recorded {
+			if w.recorded[d] > w.delivered[d] {
+				w.classes["refresh-with-done-context-nonempty"] = true
+			}
+		}
+	}
+
 	w.next = a
 	before := w.streams
-	err := w.r.Refresh(w.ctx)
+	err := w.r.Refresh(ctx)
 	w.next = nil
-	w.log = append(w.log, fmt.Sprintf("Refresh -> err=%v (streams opened: %d)", err != nil, w.streams-before))
+	w.log = append(w.log, fmt.Sprintf("Refresh%s -> err=%v (streams opened: %d)", txt, err != nil, w.streams-before))
 }
 
 func vc16DrawRec(t *rapid.T, nDev int) (rc vc16Rec) {
@@ -347,8 +428,9 @@ func vc16DrawRec(t *rapid.T, nDev int) (rc vc16Rec) {
 
 func TestVerifC16Wire(t *testing.T) {
 	st := vstat.New("C16", "backendpb.wire",
-		"rapid histories through RuntimeRecorder -> real backendpb.BillStat -> scripted gRPC client stream: per round 0..4 records, then a Refresh whose stream succeeds | fails to open | fails in Send at a drawn position | fails in CloseAndRecv, optionally with records arriving mid-stream; ends with a successful flush; non-trivial = a failed stream holding device d, a later Record(d), then a successful stream holding d; distinct by (devices, fault kinds, placement)",
-		"fail-then-record-then-success", "open-error", "send-error-first", "send-error-later", "close-error", "record-mid-stream")
+		"rapid histories through RuntimeRecorder -> real backendpb.BillStat -> scripted gRPC client stream: per round 0..4 records, then a Refresh (context live | already cancelled | already past its deadline | cancelled mid-stream) whose stream succeeds | fails to open | fails in Send at a drawn position | fails in CloseAndRecv, optionally with records arriving mid-stream; ends with a successful flush; non-trivial = a failed stream holding device d, a later Record(d), then a successful stream holding d; distinct by (devices, fault kinds, placement)",
+		"fail-then-record-then-success", "open-error", "send-error-first", "send-error-later", "close-error", "record-mid-stream",
+		"refresh-with-done-context-nonempty", "open-error-done-context", "stream-cancelled-in-flight")
 	st.Finish(t)
 
 	rapid.Check(t, func(t *rapid.T) {
@@ -394,10 +476,12 @@ func TestVerifC16Wire(t *testing.T) {
 				SendAt:  rapid.SampledFrom([]int{0, 0, 340, 500, 670, 999}).Draw(t, "sendAt"),
 				ErrKind: rapid.IntRange(0, 3).Draw(t, "errKind"),
 				MidAt:   rapid.SampledFrom([]int{0, 500, 999}).Draw(t, "midAt"),
+				Ctx: []int{vc16CtxCancelled, vc16CtxExpired, vc16CtxCancelMid, vc16CtxCancelMid,
+					vc16CtxLive, vc16CtxLive, vc16CtxLive, vc16CtxLive, vc16CtxLive, vc16CtxLive}[rapid.IntRange(0, 9).Draw(t, "ctxMode")],
 			}
 
 			nMid := rapid.SampledFrom([]int{0, 0, 1, 2}).Draw(t, "nMid")
-			fmt.Fprintf(key, "%c%d(", "SOXC"[a.Kind], a.SendAt/250)
+			fmt.Fprintf(key, "%c%d%d(", "SOXC"[a.Kind], a.SendAt/250, a.Ctx)
 			for j := 0; j < nMid; j++ {
 				rc := vc16DrawRec(t, nDev)
 				key.WriteByte(byte('a' + rc.Dev))
